@@ -147,14 +147,44 @@ def check_form_flow(prog, rep):
                                   st.lineno)
     # set_svd_theta: U -> site i form A, VH -> site i+1 form B, S -> right bond of i
     f = m.func('MPS.set_svd_theta')
-    src = unparse(f)
     rep.instance('MPS-form-flow', {'function': 'MPS.set_svd_theta'})
-    ok = re.search(r"self\.set_B\(i, U[^\n]*form='A'\)", src) and \
-        re.search(r"self\.set_B\(i \+ 1, VH[^\n]*form='B'\)", src) and 'self.set_SR(i, S)' in src
+    pi = params(f)[1]
+
+    def svd_pos(name, seen=()):
+        """position of `name` in the tuple returned by npc.svd / svd_theta (through re-bindings
+        like U = U.split_legs()...)"""
+        out = set()
+        for st in stmts_of(f):
+            if not isinstance(st, ast.Assign):
+                continue
+            t0 = st.targets[0]
+            if isinstance(t0, ast.Tuple) and isinstance(st.value, ast.Call) and \
+                    call_name(st.value) in ('svd', 'svd_theta'):
+                for k, e in enumerate(t0.elts):
+                    if isinstance(e, ast.Name) and e.id == name:
+                        out.add(k)
+            elif isinstance(t0, ast.Name) and t0.id == name and name not in seen:
+                for nm2 in names_in(st.value) - {name, 'self'}:
+                    out |= svd_pos(nm2, seen + (name, ))
+        return out
+
+    setb = {}
+    for c in body_nodes(f):
+        if isinstance(c, ast.Call) and dotted(c.func) == 'self.set_B' and len(c.args) >= 2:
+            fm = kwarg(c, 'form') or (c.args[2] if len(c.args) > 2 else None)
+            roots = names_in(c.args[1]) - {'self'}
+            pos = set()
+            for r_ in roots:
+                pos |= svd_pos(r_)
+            setb[unparse(c.args[0])] = (pos, unparse(fm) if fm is not None else None)
+    sr = [c for c in body_nodes(f) if isinstance(c, ast.Call) and dotted(c.func) == 'self.set_SR'
+          and len(c.args) == 2 and unparse(c.args[0]) == pi and svd_pos(unparse(c.args[1])) == {1}]
+    ok = setb.get(pi) == ({0}, "'A'") and setb.get('%s + 1' % pi) == ({2}, "'B'") and bool(sr)
     if not ok:
         rep.violation('MPS-form-flow', m, 'MPS.set_svd_theta', 'svd-forms',
                       'after theta = U S VH the left-isometry U goes to site i in form A, VH to '
-                      'site i+1 in form B and S to the bond between them', f.lineno)
+                      'site i+1 in form B and S to the bond between them (found %s)' % setb,
+                      f.lineno)
     # get_B: left scaling with SL/nu[0], right scaling with SR/nu[1]
     f = inline_temps(m.func('MPS.get_B'))
     rep.instance('MPS-form-flow', {'function': 'MPS.get_B'})
@@ -308,14 +338,44 @@ def check_swap_sites(prog, rep):
                       f.lineno)
     # spatial_inversion: form pairs swapped, labels swapped, all lists reversed
     g = m.func('MPS.spatial_inversion')
-    srcg = unparse(g)
     rep.instance('MPS-sided', {'function': 'MPS.spatial_inversion'})
-    if '(f[1], f[0])' not in srcg or "replace_labels(['vL', 'vR'], ['vR', 'vL'])" not in srcg or \
-            'self.sites[::-1]' not in srcg or 'self._B[::-1]' not in srcg or \
-            'self.form[::-1]' not in srcg:
+    why = None
+    stores = {}
+    for st in stmts_of(g):
+        for t, v in split_assign(st):
+            if is_self_attr(t) and t.attr in ('sites', 'form', '_B', '_S'):
+                if isinstance(v, ast.Name):
+                    d = [x for x in local_defs(g).get(v.id, [])]
+                    v = d[0] if d else v
+                stores.setdefault(t.attr, []).append(v)
+
+    def reversed_over(v, attr):
+        """the value iterates / slices self.<attr> back to front"""
+        txt = unparse(v)
+        loops = [unparse(lp.iter) for lp in ast.walk(g) if isinstance(lp, ast.For)]
+        return ('self.%s[::-1]' % attr) in txt or ('reversed(self.%s)' % attr) in txt or any(
+            ('self.%s[::-1]' % attr) in t or ('reversed(self.%s)' % attr) in t for t in loops)
+
+    for attr in ('sites', 'form', '_B'):
+        if attr not in stores or not any(reversed_over(v, attr) for v in stores[attr]):
+            why = 'self.%s must be reversed' % attr
+    src_all = unparse(g)
+    if why is None and not (find('($f[1], $f[0])', g)):
+        why = 'the exponents (nuL, nuR) of every form must be swapped'
+    if why is None and not (find("$$b.replace_labels(['vL', 'vR'], ['vR', 'vL'])", g) or
+                            find("$$b.ireplace_labels(['vL', 'vR'], ['vR', 'vL'])", g) or
+                            find("$$b.replace_labels(['vR', 'vL'], ['vL', 'vR'])", g)):
+        why = 'the virtual legs vL and vR of every tensor must be exchanged'
+    if why:
         rep.violation('MPS-sided', m, 'MPS.spatial_inversion', 'inversion',
-                      'inversion reverses sites, tensors and forms, swaps (nuL, nuR) and vL<->vR',
-                      g.lineno)
+                      'inversion reverses sites, tensors and forms, swaps (nuL, nuR) and vL<->vR: '
+                      + why, g.lineno)
+
+
+def _stmt_of(n):
+    while not isinstance(n, ast.stmt):
+        n = parent(n)
+    return n
 
 
 def check_sticky_flags(prog, rep):
@@ -375,9 +435,19 @@ def check_errflow_c09(prog, rep):
                       'the norm of the re-split tensors must be multiplied into psi.norm unless '
                       'renormalize is requested', f.lineno)
     rep.instance('MPS-norm', {'function': 'MPS.apply_local_op', 'check': 'JW'})
-    src = unparse(f)
-    if "apply_JW_string_left_of_virt_leg(self._B[i], 'vL', i)" not in src or \
-            "self.bc == 'infinite'" not in src:
+    jw = [c for c in body_nodes(f) if isinstance(c, ast.Call) and
+          call_name(c) == 'apply_JW_string_left_of_virt_leg']
+    okjw = False
+    for c in jw:
+        a = [unparse(x) for x in c.args]
+        g_ = {(t, pol) for t, pol, _ in guards_of(f, _stmt_of(c))}
+        raises_inf = any(isinstance(r, ast.Raise) and ("self.bc == 'infinite'", True) in {
+            (t, pol) for t, pol, _ in guards_of(f, r)} for r in ast.walk(f))
+        if len(a) == 3 and a[1] == "'vL'" and a[2] == a[0].replace('self._B[', '').rstrip(']') \
+                and a[0].startswith('self._B[') and raises_inf and \
+                any(pol and 'need_JW' in t for t, pol in g_):
+            okjw = True
+    if not okjw:
         rep.violation('MPS-norm', m, 'MPS.apply_local_op', 'jw-string',
                       'a fermionic operator needs the JW string on everything left of site i '
                       '(virtual leg vL of site i) and is impossible for infinite bc', f.lineno)
